@@ -185,31 +185,31 @@ class AtomicIntegralBase<T, true> : public AtomicFloatingBase<T, true> {
   }
 
   T operator++() noexcept {
-    return _value++;
+    return ++_value;
   }
   T operator++() volatile noexcept {
-    return _value++;
+    return ++_value;
   }
 
   T operator++(int) noexcept {
-    return ++_value;
+    return _value++;
   }
   T operator++(int) volatile noexcept {
-    return ++_value;
+    return _value++;
   }
 
   T operator--() noexcept {
-    return _value--;
+    return --_value;
   }
   T operator--() volatile noexcept {
-    return _value--;
+    return --_value;
   }
 
   T operator--(int) noexcept {
-    return --_value;
+    return _value--;
   }
   T operator--(int) volatile noexcept {
-    return --_value;
+    return _value--;
   }
 
   T operator&=(T arg) noexcept {
